@@ -595,7 +595,7 @@ fn publ_edrv_rating(l: &Locomotive) -> f64 {
 pub fn run_consist(ctx: &mut Ctx, rng: &mut Rng, steps: usize) {
     let n = rng.usize(1, 8);
     let (mut con, kinds) = gp::consist(rng, n);
-    if ctx.prop == "C01" {
+    if ctx.prop == "C01" || ctx.prop == "C10" {
         if rng.chance(0.12) {
             // a consist first built with other units and then given its real ones (the fleet-editing path of
             // the Python API: set_loco_vec); every ledger must describe the units it holds now
@@ -606,7 +606,7 @@ pub fn run_consist(ctx: &mut Ctx, rng: &mut Rng, steps: usize) {
             con = rebuilt;
             ctx.count("obs.consists_re-equipped_through_set_loco_vec");
         }
-        if rng.chance(0.1) {
+        if ctx.prop == "C01" && rng.chance(0.1) {
             let k = rng.usize(0, n - 1);
             start_outside_soc_window(ctx, &mut con.loco_vec[k], rng);
         }
